@@ -98,7 +98,7 @@ func (r *rd) varint() (uint64, bool) {
 	}
 	return v, true
 }
-func (r *rd) rest() int { return len(r.b) }
+func (r *rd) rest() int  { return len(r.b) }
 func (r *rd) done() bool { return !r.bad && len(r.b) == 0 }
 
 // innerOK: every inner length prefix of the body of extension `id` matches what follows it, exactly.
